@@ -28,6 +28,7 @@ CONSTANTS Reqs,          \* request (AcquireConn call) identities; a waiter is i
           Conns,         \* connection identities (a closed connection's identity may be dialled again)
           Configs,       \* set of client configurations [maxConns, wait, lifo] (one is chosen initially)
           AllowDialFail, \* BOOLEAN: dial faults
+          AllowTLS,      \* BOOLEAN: dials in two steps (raw connection, then TLS handshake that may fail)
           AllowEnv,      \* BOOLEAN: CloseIdleConnections / cleaner expiry / server-side close
           CanonFresh,    \* BOOLEAN: a dial yields the smallest unused identity (model checking only)
           Nil
@@ -55,10 +56,10 @@ MaxConns == cfg.maxConns
 WaitEnabled == cfg.wait
 Lifo == cfg.lifo
 
-PcVals  == {"start", "enq", "dialing", "dialfail", "waiting", "cancelling", "has", "done"}
+PcVals  == {"start", "enq", "dialing", "hsfail", "dialfail", "waiting", "cancelling", "has", "done"}
 WstVals == {"none", "waiting", "cancelling", "delivered", "failed", "cancelled", "taken"}
-DfVals  == {"none", "dialing", "gotconn", "failed", "dec"}
-CsVals  == {"none", "lent", "idle", "delivered", "dfhand", "releasing", "closing", "closed"}
+DfVals  == {"none", "dialing", "hsfail", "gotconn", "failed", "dec"}
+CsVals  == {"none", "raw", "lent", "idle", "delivered", "dfhand", "releasing", "closing", "closed"}
 
 TypeOK ==
   /\ cfg \in Configs
@@ -89,6 +90,11 @@ MaybeWaiting(x) == wst[x] \in {"waiting", "cancelling", "cancelled"}
 MaybeNotWaiting(x) == wst[x] # "waiting"
 \* tryDeliver succeeds iff, under w.mu, neither conn nor err is set
 Deliverable(x) == wst[x] = "waiting"
+
+\* dials in flight (AcquireConn's own dial, or dialConnFor) and raw connections: established by Dial, TLS
+\* handshake not finished (dialAddr / tlsClientHandshake).  A raw connection belongs to a dial in flight.
+NDials == Cardinality({r \in Reqs : pc[r] = "dialing"}) + Cardinality({x \in Reqs : dfor[x] = "dialing"})
+NRaw == Cardinality({c \in Conns : cstate[c] = "raw"})
 
 FreshOK(c) == /\ cstate[c] = "none"
               /\ CanonFresh => \A d \in Conns : cstate[d] = "none" => c <= d
@@ -163,17 +169,35 @@ CancelEnd(r) ==
   /\ pc' = [pc EXCEPT ![r] = "done"]
   /\ UNCHANGED <<count, idle, waitq, lent, dfor, dfconn, open, dead>>
 
-(* dialHostHard in AcquireConn *)
+(* Dial returned a raw connection; the TLS handshake on it is still to come (IsTLS) *)
+RawDial(c) ==
+  /\ AllowTLS /\ FreshOK(c) /\ NRaw < NDials
+  /\ cstate' = [cstate EXCEPT ![c] = "raw"]
+  /\ open' = open \cup {c}
+  /\ UNCHANGED <<count, idle, waitq, pc, res, lent, wst, wconn, dfor, dfconn, dead>>
+
+(* the handshake of some dial in flight failed (bad certificate, garbage, timeout): the raw connection is *)
+(* closed, and that dial is going to fail                                                               *)
+HsFail(r, c) ==
+  /\ cstate[c] = "raw"
+  /\ \/ pc[r] = "dialing" /\ pc' = [pc EXCEPT ![r] = "hsfail"] /\ UNCHANGED dfor
+     \/ dfor[r] = "dialing" /\ dfor' = [dfor EXCEPT ![r] = "hsfail"] /\ UNCHANGED pc
+  /\ cstate' = [cstate EXCEPT ![c] = "none"]
+  /\ open' = open \ {c}
+  /\ UNCHANGED <<count, idle, waitq, res, lent, wst, wconn, dfconn, dead>>
+
+(* dialHostHard in AcquireConn: a fresh plain connection, or a raw one whose handshake succeeded *)
 DialOk(r, c) ==
-  /\ pc[r] = "dialing" /\ FreshOK(c)
+  /\ pc[r] = "dialing" /\ ((FreshOK(c) /\ NRaw < NDials) \/ cstate[c] = "raw")
   /\ cstate' = [cstate EXCEPT ![c] = "lent"]
   /\ lent' = [lent EXCEPT ![r] = c]
   /\ open' = open \cup {c}
   /\ pc' = [pc EXCEPT ![r] = "has"] /\ res' = [res EXCEPT ![r] = "conn"]
   /\ UNCHANGED <<count, idle, waitq, wst, wconn, dfor, dfconn, dead>>
 
+\* a dial fails only after it has closed the raw connection it may have had (NRaw < NDials: this dial has none)
 DialFail(r) ==
-  /\ AllowDialFail /\ pc[r] = "dialing"
+  /\ AllowDialFail /\ (pc[r] = "hsfail" \/ (pc[r] = "dialing" /\ NRaw < NDials))
   /\ pc' = [pc EXCEPT ![r] = "dialfail"]
   /\ UNCHANGED <<count, idle, waitq, res, lent, wst, wconn, dfor, dfconn, cstate, open, dead>>
 
@@ -259,7 +283,7 @@ DecAfterClose(c) ==
 -----------------------------------------------------------------------------
 (* dialConnFor(w), started by decConnsCount *)
 DialForOk(x, c) ==
-  /\ dfor[x] = "dialing" /\ FreshOK(c)
+  /\ dfor[x] = "dialing" /\ ((FreshOK(c) /\ NRaw < NDials) \/ cstate[c] = "raw")
   /\ cstate' = [cstate EXCEPT ![c] = "dfhand"]
   /\ dfconn' = [dfconn EXCEPT ![x] = c]
   /\ open' = open \cup {c}
@@ -267,7 +291,7 @@ DialForOk(x, c) ==
   /\ UNCHANGED <<count, idle, waitq, pc, res, lent, wst, wconn, dead>>
 
 DialForFail(x) ==
-  /\ AllowDialFail /\ dfor[x] = "dialing"
+  /\ AllowDialFail /\ (dfor[x] = "hsfail" \/ (dfor[x] = "dialing" /\ NRaw < NDials))
   /\ dfor' = [dfor EXCEPT ![x] = "failed"]
   /\ UNCHANGED <<count, idle, waitq, pc, res, lent, wst, wconn, dfconn, cstate, open, dead>>
 
@@ -323,7 +347,7 @@ Step ==
                      \/ DialFail(r) \/ DecAfterDialFail(r)
                      \/ ReqRelease(r) \/ ReqClose(r)
                      \/ DialForFail(r) \/ DialForDeliver(r) \/ DialForDeliverErr(r) \/ DecAfterDialFor(r)
-  \/ \E c \in Conns : Release(c) \/ NetClose(c) \/ DecAfterClose(c) \/ ServerClose(c)
+  \/ \E c \in Conns : Release(c) \/ NetClose(c) \/ DecAfterClose(c) \/ ServerClose(c) \/ RawDial(c) \/ \E r \in Reqs : HsFail(r, c)
   \/ CleanerExpire
 
 Next == Step /\ UNCHANGED cfg
@@ -339,9 +363,9 @@ Spec == Init /\ [][Next]_vars /\ Fairness
 -----------------------------------------------------------------------------
 (* Properties (C18) *)
 Card(S) == Cardinality(S)
-InPool(c) == cstate[c] # "none"
-DialingReqs == {r \in Reqs : pc[r] \in {"dialing", "dialfail"}}
-DialForSlots == {x \in Reqs : dfor[x] \in {"dialing", "failed", "dec"}}
+InPool(c) == cstate[c] \notin {"none", "raw"}   \* a raw connection is part of a dial in flight
+DialingReqs == {r \in Reqs : pc[r] \in {"dialing", "hsfail", "dialfail"}}
+DialForSlots == {x \in Reqs : dfor[x] \in {"dialing", "hsfail", "failed", "dec"}}
 
 \* never more than MaxConns slots
 Bound == count <= MaxConns /\ count >= 0
@@ -350,8 +374,10 @@ Bound == count <= MaxConns /\ count >= 0
 \* dials whose decConnsCount is still to come)
 Account == count = Card({c \in Conns : InPool(c)}) + Card(DialingReqs) + Card(DialForSlots)
 \* ground truth: connections open at the dialer plus dials in flight never exceed MaxConns
-OpenBound == Card(open) + Card({r \in Reqs : pc[r] = "dialing"}) + Card({x \in Reqs : dfor[x] = "dialing"}) <= MaxConns
-OpenTracked == open = {c \in Conns : cstate[c] \in {"lent", "idle", "delivered", "dfhand", "releasing", "closing"}}
+OpenBound == Card(open) + (NDials - NRaw) <= MaxConns
+OpenTracked == open = {c \in Conns : cstate[c] \in {"raw", "lent", "idle", "delivered", "dfhand", "releasing", "closing"}}
+\* every raw connection belongs to a dial in flight: a dial that has ended has closed (or handed over) its connection
+RawBound == NRaw <= NDials
 
 \* a connection is in exactly one place; lent to at most one request; never both idle and lent
 Exclusive ==
@@ -369,11 +395,11 @@ Exclusive ==
 
 \* no waiter is forgotten: a waiting waiter is queued or somebody is dialling for it
 NoLostWaiter == \A r \in Reqs : wst[r] = "waiting" =>
-                    (\E i \in 1..Len(waitq) : waitq[i] = r) \/ dfor[r] \in {"dialing", "gotconn", "failed"}
+                    (\E i \in 1..Len(waitq) : waitq[i] = r) \/ dfor[r] \in {"dialing", "hsfail", "gotconn", "failed"}
 QueueSane == /\ \A i, j \in 1..Len(waitq) : i # j => waitq[i] # waitq[j]
              /\ \A i \in 1..Len(waitq) : wst[waitq[i]] \in {"waiting", "cancelling", "cancelled"}
 \* a dial always finds an unused identity (the model's Conns is large enough)
-FreshIdAvailable == (\E r \in Reqs : pc[r] = "dialing" \/ dfor[r] = "dialing") => \E c \in Conns : cstate[c] = "none"
+FreshIdAvailable == (NRaw < NDials) => \E c \in Conns : cstate[c] = "none"
 \* outcome discipline: a connection or, only after waiting, a timeout; ErrNoFreeConns without waiting only
 \* when no wait is configured
 Outcomes == \A r \in Reqs : /\ (res[r] = "nofree") => ~WaitEnabled
@@ -387,7 +413,7 @@ QuiescentExact == Quiescent => (count = Len(idle) /\ open = {c \in Conns : cstat
 AllClosed == Quiescent /\ idle = <<>>
 QuiescentZero == AllClosed => (count = 0 /\ open = {})
 
-Inv == TypeOK /\ Bound /\ Account /\ OpenBound /\ OpenTracked /\ Exclusive /\ NoLostWaiter /\ QueueSane
+Inv == TypeOK /\ Bound /\ Account /\ OpenBound /\ OpenTracked /\ RawBound /\ Exclusive /\ NoLostWaiter /\ QueueSane
        /\ FreshIdAvailable /\ Outcomes /\ QuiescentExact /\ QuiescentZero
 
 \* every waiter ends with a connection or an error (ErrNoFreeConns / ErrTimeout / the error of the
